@@ -854,7 +854,12 @@ fn cmp_uncoercible_numbers(left: &Value, right: &Value) -> Ordering {
 impl Ord for Value {
     fn cmp(&self, other: &Self) -> Ordering {
         let kind_ordering = self.kind().cmp(&other.kind());
-        if matches!(kind_ordering, Ordering::Less | Ordering::Greater) {
+        // sequences and iterables are equal when their items are (see `PartialEq`), so
+        // they have to be ordered by their items as well rather than by their kind.
+        if matches!(kind_ordering, Ordering::Less | Ordering::Greater)
+            && !(matches!(self.kind(), ValueKind::Seq | ValueKind::Iterable)
+                && matches!(other.kind(), ValueKind::Seq | ValueKind::Iterable))
+        {
             return kind_ordering;
         }
         match (&self.0, &other.0) {
